@@ -261,4 +261,34 @@ MUTANTS = [
     ("C17-same-seed-for-all-dists", "liesel/model/model.py",
      "        seeds = jax.random.split(seed, len(dists))\n\n        for dist, seed in zip(dists, seeds):",
      "        seeds = [seed for _ in dists]\n\n        for dist, seed in zip(dists, seeds):"),
+    # ------------------------------------------------------------------ C15
+    ("C15-per-obs-setter-unguarded", "liesel/model/nodes.py",
+     "    @per_obs.setter\n    @no_model_setter\n    def per_obs", "    @per_obs.setter\n    def per_obs"),
+    ("C15-duplicate-inputs-listed-twice-as-outputs", "liesel/model/nodes.py",
+     "        self._outputs = _unique_tuple(self._outputs, [output])\n", "        self._outputs = (*self._outputs, output)\n",
+     ("liesel/model/model.py", "            for _input in node.all_input_nodes():\n                _input._add_output(node)\n",
+      "            for _input in (*node.inputs, *node.kwinputs.values()):\n                _input._add_output(node)\n            if isinstance(node, Dist) and node.at is not None:\n                node.at._add_output(node)\n")),
+    ("C15-outputs-not-cleared-at-build", "liesel/model/model.py",
+     "            node._clear_outputs()\n            node._set_model(self)\n", "            node._set_model(self)\n"),
+    ("C15-var-observed-setter-unguarded", "liesel/model/nodes.py",
+     "    @observed.setter\n    @no_model_setter\n    def observed", "    @observed.setter\n    def observed"),
+    ("C15-duplicate-group-names-unchecked", "liesel/model/model.py",
+     '            raise RuntimeError(f"Duplicate group names: {\', \'.join(dups)}")\n', "            pass\n"),
+    ("C15-missing-names-may-collide", "liesel/model/model.py",
+     """                while name in other:
+                    name = f"{prefix}{(counter := counter + 1)}"
+
+""", ""),
+    ("C15-build-copy-is-shallow", "liesel/model/model.py",
+     "            self._nodes, self._vars = deepcopy((self._nodes, self._vars))\n",
+     "            self._nodes, self._vars = dict(self._nodes), dict(self._vars)\n"),
+    ("C15-duplicate-var-names-unchecked", "liesel/model/model.py",
+     '            raise RuntimeError(f"Duplicate variable names: {\', \'.join(dups)}")\n', "            pass\n"),
+    ("C15-var-value-node-setter-unguarded", "liesel/model/nodes.py",
+     "    @value_node.setter\n    @no_model_setter\n", "    @value_node.setter\n"),
+    ("C15-getstate-drops-outdated-flag", "liesel/model/nodes.py",
+     '        state = self.__dict__.copy()\n        state["_model"] = self._model()\n        return state\n',
+     '        state = self.__dict__.copy()\n        state["_model"] = self._model()\n        state["_outdated"] = False\n        return state\n'),
+    ("C15-set-inputs-unguarded", "liesel/model/nodes.py",
+     "    @no_model_method\n    def set_inputs(", "    def set_inputs("),
 ]
